@@ -26,7 +26,7 @@ Import ListNotations.
 (** the named types a type definition mentions *)
 Definition mentions (t : named_type) : list name :=
   match t with
-  | NScalar _ _ _ | NEnum _ _ _ => []
+  | NScalar _ _ _ _ | NEnum _ _ _ => []
   | NInput fs _ _ _ => map (fun a => unwrap (in_type (snd a))) fs
   | NObject fs ifs _ _ =>
       ifs ++ flat_map (fun f => unwrap (f_type (snd f)) :: map (fun a => unwrap (in_type (snd a))) (f_args (snd f))) fs
